@@ -47,10 +47,10 @@ import seqcheck
 
 SPEC = {
     "prop": "C15",
-    "lean_targets": ["InfernoVerif.Props.C15", "InfernoVerif.Props.C15b", "InfernoVerif.Props.C15GlueProg"],
-    "translate": ["LifecycleProg"],
+    "lean_targets": ["InfernoVerif.Props.C15", "InfernoVerif.Props.C15b", "InfernoVerif.Props.C15GlueProg", "InfernoVerif.Props.C15Run", "InfernoVerif.Props.C15GlueMonitor"],
+    "translate": ["LifecycleProg", "MonitorProg", "HookProg"],
     "driver_targets": ["InfernoVerif.Model.Lifecycle", "InfernoVerif.Drv.Proto"],
-    "prop_files": ["InfernoVerif/Props/C15.lean", "InfernoVerif/Props/C15b.lean", "InfernoVerif/Props/C15GlueProg.lean"],
+    "prop_files": ["InfernoVerif/Props/C15.lean", "InfernoVerif/Props/C15b.lean", "InfernoVerif/Props/C15GlueProg.lean", "InfernoVerif/Props/C15Run.lean", "InfernoVerif/Props/C15GlueMonitor.lean"],
     "lemma_files": ["InfernoVerif/Lemmas/Lifecycle.lean", "InfernoVerif/Lemmas/Lifecycle2.lean"],
     "model_files": ["InfernoVerif/Model/Lifecycle.lean"],
     "driver": "drivers/C15.lean",
